@@ -583,6 +583,44 @@ impl<'r> Gen<'r> {
         }
     }
 
+    /// Entries that continue each other: the next line of the same method starts exactly
+    /// one line behind the previous one, in the obfuscated and in the original numbering
+    /// (what a line table split into pieces looks like) — with equal spans, with spans that
+    /// differ per piece but add up (3+1 obfuscated lines onto 1+3 original ones), three or
+    /// more pieces in a row, now and then under another obfuscated name or with one part of
+    /// the signature changed.
+    fn continuation_chain(&mut self, out: &mut Vec<Item>) {
+        let mut m = self.method();
+        let a = 1 + self.rng.below(40) as u128;
+        let os = 10 + self.rng.below(60) as u128;
+        let (p, q) = (self.rng.below(4) as u128, self.rng.below(4) as u128);
+        let compensating = self.rng.chance(1, 4);
+        m.start = Some(a);
+        m.end = Some(a + p);
+        m.ostart = Some(os);
+        m.oend = Some(os + if compensating { q } else { p });
+        out.push(Item::Method(m.clone()));
+        let n = 1 + self.rng.below(3);
+        for k in 0..n {
+            let mut c = m.clone();
+            let span = if compensating && k == 0 { q } else if self.rng.chance(3, 4) { p } else { self.rng.below(4) as u128 };
+            let ospan = if compensating && k == 0 { p } else if self.rng.chance(3, 4) { span } else { self.rng.below(4) as u128 };
+            c.start = Some(m.end.unwrap() + 1);
+            c.end = Some(c.start.unwrap() + span);
+            c.ostart = Some(m.oend.unwrap_or(m.ostart.unwrap()) + 1);
+            c.oend = if self.rng.chance(1, 8) { None } else { Some(c.ostart.unwrap() + ospan) };
+            match self.rng.below(12) {
+                0 | 1 => c.obf = self.rng.pick(OBF_METHODS).to_string(),
+                2 => c.orig = self.rng.pick(ORIG_METHODS).to_string(),
+                3 => c.args = self.rng.pick(ARGS).to_string(),
+                4 => c.orig_class = Some(self.orig_class()).filter(|x| !x.is_empty()),
+                _ => {}
+            }
+            out.push(Item::Method(c.clone()));
+            m = c;
+        }
+    }
+
     fn member_item(&mut self, out: &mut Vec<Item>, recent: &mut Vec<MethodEntry>) {
         let r = self.rng.below(100);
         if r < self.cfg.inline_pct {
@@ -608,6 +646,8 @@ impl<'r> Gen<'r> {
             let key = self.rng.pick(HEADER_KEYS).to_string();
             let value = if self.rng.chance(2, 3) { Some(self.rng.pick(&["R8", "1.2.3", "21", "x"]).to_string()) } else { None };
             out.push(Item::HeaderKV { key, value });
+        } else if self.rng.chance(1, 12) {
+            self.continuation_chain(out);
         } else if !recent.is_empty() && self.rng.chance(1, 4) {
             // repeat an earlier entry exactly or with a different range (dedup / state leak)
             let mut m = self.rng.pick(recent).clone();
@@ -827,6 +867,26 @@ pub fn ranged_group_ast(rng: &mut Rng, n: usize) -> MapAst {
         }
         items.push(Item::Method(m(format!("m{}", i % 7), None, 100 + 3 * i as u128)));
     }
+    // a second large method `c`: inline chains of two and three frames at various positions
+    let mut line = 5u128;
+    for i in 0..(n / 2).max(8) {
+        let (a, b) = (line, line + 1);
+        line = b + 1;
+        let depth = [1usize, 1, 2, 3, 1][i % 5];
+        for d in 0..depth {
+            items.push(Item::Method(MethodEntry {
+                start: Some(a),
+                end: Some(b),
+                ret: "void".into(),
+                orig_class: if d + 1 < depth { Some(format!("com.example.Inl{d}")) } else { None },
+                orig: if d + 1 < depth { format!("callee{d}") } else { format!("caller{}", i % 4) },
+                args: "".into(),
+                ostart: Some(900 + 5 * i as u128 + d as u128),
+                oend: if d + 1 < depth { Some(901 + 5 * i as u128 + d as u128) } else { None },
+                obf: "c".into(),
+            }));
+        }
+    }
     for i in 0..3 {
         items.push(Item::Method(MethodEntry {
             start: None,
@@ -852,5 +912,49 @@ pub fn ranged_group_ast(rng: &mut Rng, n: usize) -> MapAst {
         oend: Some(7),
         obf: "a".into(),
     }));
+    MapAst { items }
+}
+
+/// One class per requested size: `size` ranged entries under the obfuscated method `a`
+/// — in every fifth class one of them with a reversed range —, followed by `size % 4` entries under
+/// `z`. Group sizes and the distance from a group to the end of its class sweep through
+/// every value, so that a search strategy which only goes wrong at particular sizes
+/// (62 + 2^k, 2^k ± 1, the switch-over point between two strategies) meets them.
+pub fn size_sweep_ast(sizes: &[usize]) -> MapAst {
+    let mut items = vec![];
+    for &n in sizes {
+        items.push(Item::Class { orig: format!("com.example.sweep.S{n}"), obf: format!("sw.c{n}") });
+        // every fifth class has, in the middle of its ascending table, one entry whose range is
+        // reversed (start well above end) without breaking the ascending order of starts and ends
+        let rev = if n % 5 == 0 && n >= 3 { Some(n / 2) } else { None };
+        for i in 0..n {
+            let shift = if rev.map_or(false, |r| i > r) { 20 } else { 0 };
+            let (st, en) = if rev == Some(i) { (2 * i as u128 + 20, 2 * i as u128) } else { (1 + 2 * i as u128 + shift, 2 + 2 * i as u128 + shift) };
+            items.push(Item::Method(MethodEntry {
+                start: Some(st),
+                end: Some(en),
+                ret: "void".into(),
+                orig_class: None,
+                orig: format!("m{}", i % 3),
+                args: ["", "int"][i % 2].to_string(),
+                ostart: Some(100 + 3 * i as u128),
+                oend: Some(101 + 3 * i as u128),
+                obf: "a".into(),
+            }));
+        }
+        for j in 0..(n % 4) {
+            items.push(Item::Method(MethodEntry {
+                start: None,
+                end: None,
+                ret: "int".into(),
+                orig_class: None,
+                orig: format!("tail{j}"),
+                args: "".into(),
+                ostart: None,
+                oend: None,
+                obf: "z".into(),
+            }));
+        }
+    }
     MapAst { items }
 }
